@@ -54,3 +54,18 @@ Definition of_option {A} (e : A -> sx) (o : option A) : sx :=
 Definition sx_err (code : Z) : sx := SL [SZ (-1)%Z; SZ code].
 Definition sx_ok (s : sx) : sx := SL [SZ 0%Z; s].
 Definition bad_request : sx := sx_err 99%Z.
+
+(* decidable equality on wire values: used by the extraction cross-check (the same requests are
+   re-evaluated inside Coq with vm_compute and compared with the extracted driver's replies) *)
+Fixpoint sx_eqb (a b : sx) {struct a} : bool :=
+  match a, b with
+  | SZ x, SZ y => Z.eqb x y
+  | SL l, SL m =>
+      (fix go (l : list sx) (m : list sx) {struct l} : bool :=
+         match l, m with
+         | [], [] => true
+         | x :: l', y :: m' => sx_eqb x y && go l' m'
+         | _, _ => false
+         end) l m
+  | _, _ => false
+  end.
